@@ -454,6 +454,14 @@ func (kvv kvVersions) FindMatch(v dvid.VersionID) (*storage.KeyValue, dvid.Versi
 		return nil, 0, ErrManagerNotInitialized
 	}
 
+	// Mark every k/v that is superseded by a k/v at one of its descendants within this version's
+	// ancestry, so the result does not depend on the order in which merge parents are traversed.
+	if len(kvv) > 1 {
+		if err := manager.invalidateSuperseded(kvv, v); err != nil {
+			return nil, v, err
+		}
+	}
+
 	// Start from current version and traverse the ancestor graph.  Whenever there's a branch, make
 	// sure we only have one matching key.
 	return manager.findMatch(kvv, v)
